@@ -143,3 +143,27 @@ func verifInitRecBuf(r *recBuf) {
 		r.batch0Seq = r.seq
 	}
 }
+
+// VerifRewindDrainTo builds a produce partition buffer whose first batch has
+// sequence batch0Seq and whose batches hold counts[j] records, marks all of
+// them drained (as createReq does), runs the real rewindDrainTo on batch `to`
+// and returns the sequence number and drain index it leaves behind. With
+// to < 0 it runs resetBatchDrainIdx instead.
+func VerifRewindDrainTo(batch0Seq int32, counts []int, to int) (seq int32, drainIdx int) {
+	cl := &Client{}
+	cl.cfg.logger = new(nopLogger)
+	r := &recBuf{cl: cl, topic: "t", batch0Seq: batch0Seq}
+	s := batch0Seq
+	for _, n := range counts {
+		r.batches = append(r.batches, &recBatch{owner: r, records: make([]promisedRec, n)})
+		s = int32((int64(s) + int64(n)) % (1 << 31))
+	}
+	r.seq = s
+	r.batchDrainIdx = len(counts)
+	if to < 0 {
+		r.resetBatchDrainIdx()
+	} else {
+		r.rewindDrainTo(r.batches[to])
+	}
+	return r.seq, r.batchDrainIdx
+}
